@@ -735,7 +735,7 @@ the `copyKinds` the heap theorem is about. -/
 theorem C13_gen_copy_table :
     Gen.C13.copyCreate.map (·.1) = Gen.C13.initFields ∧
     Gen.C13.copyCreate.map (·.2.1) = Gen.C13.initFields ∧
-    Gen.C13.initFields = ["_annotation", "_sequence", "_seqstart"] ∧
+    Gen.C13.initFields = ["F_annotation", "F_sequence", "F_sequence_start"] ∧
     Gen.C13.copyCreate.map (fun t => copyKindOfString t.2.2)
       = [copyKinds.1, copyKinds.2.1, copyKinds.2.2] := by decide
 
